@@ -157,6 +157,16 @@ func c04Profile(variant string) func(c *sim.RunCtx) {
 				cfg.KeyFormat = digest.KeyWithInstance
 				insts = []string{"", "a", "a/b"}
 			}
+			if variant == "ac" {
+				// Action Cache style: the read buffer factory reads entries eagerly,
+				// so a refresh may start from a buffer that already is an error
+				cfg.AC = true
+				cfg.Mutable = true
+				cfg.New = 1
+				if cfg.BlockSize() < 48 {
+					cfg.BlockSectors = (48 + cfg.SectorSize - 1) / cfg.SectorSize
+				}
+			}
 		}
 		cfg.Spare = t.Choose(3)
 		if persistent && cfg.Spare == 0 {
@@ -166,6 +176,9 @@ func c04Profile(variant string) func(c *sim.RunCtx) {
 		allocFail := []int{0, 30, 100}[t.Choose(3)]
 		writeErr := []int{0, 0, 20}[t.Choose(3)]
 		readErr := []int{0, 0, 20}[t.Choose(3)]
+		if variant == "ac" && readErr == 0 {
+			readErr = 30
+		}
 		install := func(w *storeWorld) {
 			w.tolerateIOErrors = true
 			c04Monitors(c, w)
@@ -242,6 +255,7 @@ func init() {
 			{Name: "flat", Weight: 3, Fn: c04Profile("flat")},
 			{Name: "hier", Weight: 3, Fn: c04Profile("hier")},
 			{Name: "persistent", Weight: 3, Fn: c04Profile("persistent")},
+			{Name: "flat-ac", Weight: 2, Fn: c04Profile("ac")},
 			{Name: "flat-atomics", Weight: 1, Fn: withAtomicYields(c04Profile("flat"))},
 			{Name: "hier-atomics", Weight: 1, Fn: withAtomicYields(c04Profile("hier"))},
 			{Name: "decorators", Weight: 3, Fn: c04Decorators},
